@@ -243,6 +243,28 @@ def guard_shape():
     return "true"
 
 
+def monitor_shape(fn, call, passthrough=()):
+    """a runner's `_monitor_payload`: `try: result = <call>` with the given pass-through handlers (re-raise)
+    followed by `except BaseException as e: failure = e`, `else: if result is None: return` and
+    `failure = OrphanedReturn(payload, result)`: every outcome but a returned None is a failure"""
+    tree = ast.parse(textwrap.dedent(inspect.getsource(fn))).body[0]
+    tr = next((st for st in tree.body if isinstance(st, ast.Try)), None)
+    if tr is None or tree.body.index(tr) != 0 or tr.finalbody:
+        raise Untranslatable("does not start with try/except/else")
+    if [ast.unparse(x) for x in tr.body] != ["result = " + call]:
+        raise Untranslatable("try body %s" % [ast.unparse(x) for x in tr.body])
+    hs = list(tr.handlers)
+    if passthrough:
+        h0 = hs.pop(0) if hs else None
+        if h0 is None or ast.unparse(h0.type) != passthrough[0] or [ast.unparse(x) for x in h0.body] != ["raise"]:
+            raise Untranslatable("pass-through handler")
+    if len(hs) != 1 or ast.unparse(hs[0].type) != "BaseException" or [ast.unparse(x) for x in hs[0].body] != ["failure = %s" % hs[0].name]:
+        raise Untranslatable("failure handler: %s" % [ast.unparse(h.type) for h in hs])
+    if [ast.unparse(x) for x in tr.orelse] != ["if result is None:\n    return", "failure = OrphanedReturn(payload, result)"]:
+        raise Untranslatable("else branch: %s" % [ast.unparse(x) for x in tr.orelse])
+    return "true"
+
+
 def strs_lean(l):
     return "[" + ", ".join('"%s"' % x.replace("\\", "\\\\").replace('"', '\\"') for x in l) + "]"
 
@@ -270,7 +292,7 @@ def render():
     from cobald.controller.relative_supply import RelativeSupplyController
     from cobald.monitor import format_line
     out = ["/- GENERATED by harness/vh/translate.py from the source text of /repo — do not edit.",
-           "   Regenerated on every run of the checks that depend on it (C06 C08 C09 C12 C13 C15 C17); the theorems `gen_*` in",
+           "   Regenerated on every run of the checks that depend on it (C01 C06 C08 C09 C12 C13 C15 C17); the theorems `gen_*` in",
            "   their Props files equate these definitions with the hand-written models and are thereby",
            "   re-checked against what the code says now. -/",
            "import CobaldVerif.Model.Num", "", "namespace Cobald.Gen", "open Cobald Cobald.ERat", ""]
@@ -304,6 +326,11 @@ def render():
     emit("escapeFieldPairs", "", "List (Char × List Char)", lambda: chain_of(format_line.escape_field, 0, 1))
     emit("escapeNamePairs", "", "List (Char × List Char)", lambda: chain_of(format_line.line_protocol, 0, 1))
     emit("guardShape", "", "Bool", guard_shape)
+    from cobald.daemon.runners.asyncio_runner import AsyncioRunner
+    from cobald.daemon.runners.thread_runner import ThreadRunner
+    emit("monitorShapeAsyncio", "", "Bool", lambda: monitor_shape(AsyncioRunner._monitor_payload, "await payload()",
+                                                                  passthrough=("(asyncio.CancelledError, KeyboardInterrupt)",)))
+    emit("monitorShapeThread", "", "Bool", lambda: monitor_shape(ThreadRunner._monitor_payload, "payload()"))
     from cobald.composite.factory import FactoryPool
     from cobald.controller.switch import DemandSwitch
     from cobald.controller.stepwise import Stepwise
